@@ -52,6 +52,11 @@ def cases(tier, seed):
         s = gens.gen_pyramid(R, maxdepth=4, mindepth=2, kinds=("generic", "toast", "filtered"), sub_p=0.3)
         s.update(profile=R.choice(["natural", "jitter", "slow_workers", "heavy_tail"]), par=R.choice([2, 3, 4]), seed=R.randrange(1 << 30), fail_at="pick")
         out.append(s)
+    # the operating system refuses the first / second / third worker: the walk reports it, or still does everything exactly once
+    for i in range(8 if tier == "quick" else 80):
+        s = gens.gen_pyramid(R, maxdepth=3, mindepth=2, kinds=("generic", "toast", "filtered"), sub_p=0.2)
+        s.update(profile=R.choice(["natural", "jitter", "slow_workers"]), par=R.choice([2, 2, 3, 4]), seed=R.randrange(1 << 30), forkfail=i % 3)
+        out.append(s)
     # long walks: many hundreds of tiles per worker (anything that wears out, recycles or rotates after N tiles)
     for d, k in (((6, 2),) if tier == "quick" else ((6, 2), (6, 2), (6, 3), (7, 8), (7, 4))):
         out.append(dict(kind="generic", depth=d, apex=None, accepted=None, coordsys="astronomical", profile=R.choice(["natural", "natural", "jitter"]) if tier != "quick" else "natural", par=k,
@@ -123,6 +128,20 @@ def run_walk(spec, workdir, par, tag, ops):
         evlog.ev("cb_end", pos=p)
 
     def fn():
+        if spec.get("forkfail") is not None and par > 1:
+            # the operating system refuses to create more than `forkfail` worker processes (EAGAIN: ulimit -u, a cgroup limit)
+            import errno
+
+            real, n = os.fork, [0]
+
+            def fork():
+                n[0] += 1
+                if n[0] > spec["forkfail"]:
+                    evlog.ev("fork_refused", n=n[0])
+                    raise BlockingIOError(errno.EAGAIN, "Resource temporarily unavailable (injected fork failure)")
+                return real()
+
+            os.fork = fork
         pyr.walk(cb, parallel=par)
 
     if par > 1:
@@ -147,6 +166,12 @@ def check_history(recs, ops, outcome, info):
     starts = collections.Counter(tuple(r["pos"]) for r in recs if r["k"] == "cb_start")
     if outcome == "stuck":
         v.append(("walk-stuck", "stuck state: %s" % info))
+    elif outcome == "raised" and any(r["k"] == "fork_refused" for r in recs):
+        # the refused fork was reported to the caller: nothing is promised about completeness, but no tile may have been
+        # processed twice (and the ordering clauses below still apply to what did run)
+        dup = sorted(k for k, n in starts.items() if n != 1)
+        if dup:
+            v.append(("callback-repeated", "callback ran more than once for %s (a worker could not be started)" % dup[:6]))
     elif outcome == "raised":
         exc = [r.get("e") for r in recs if r["k"] == "stage_exc"]
         v.append(("walk-raised", "walk raised %s" % exc))
